@@ -62,6 +62,7 @@ func c12Menu() []c12Req {
 		{Name: "unbound-field", Text: `{a{ghost id} b{ghost}}`, Abstract: true},
 		{Name: "unbound-field-in-list", Text: `{as{id ghost} ghost}`, Abstract: true},
 		// default values are printed on the request path (introspection)
+		{Name: "introspect-members", Text: `{__type(name:"AB"){possibleTypes{name}} n: __type(name:"Named"){possibleTypes{name}} a: __type(name:"A"){interfaces{name}}}`},
 		{Name: "introspect-defaults", Text: `{__type(name:"Filter"){inputFields{name defaultValue}} q: __type(name:"Query"){fields{name args{name defaultValue}}} __schema{directives{name args{defaultValue}}}}`},
 	}
 }
@@ -100,6 +101,8 @@ func c12Cfgs() []c12Cfg {
 		{"FS/registered-fields", func(s *world.Schema) world.Config { return world.Config{Strat: world.FS, Bind: world.BindRegisterFields, Schema: s} }, 0, nil},
 		{"RS", func(s *world.Schema) world.Config { return world.Config{Strat: world.RS, Schema: s} }, 0, nil},
 		{"AS", func(s *world.Schema) world.Config { return world.Config{Strat: world.AS, Schema: s} }, 0, nil},
+		// the union's members written in reverse alphabetical order (whoever sorts them must sort a copy)
+		{"FS/registered/reversed-union", func(s *world.Schema) world.Config { return world.Config{Strat: world.FS, Bind: world.BindRegister, Schema: s} }, 0, nil},
 		{"RS/root-type-added-by-AddTypes", func(s *world.Schema) world.Config { return world.Config{Strat: world.RS, Schema: s} }, 0, c12AddSubscription},
 		{"RS/after-a-refused-load", func(s *world.Schema) world.Config { return world.Config{Strat: world.RS, Schema: s} }, 0, c12RefusedLoad},
 	}
@@ -176,7 +179,7 @@ func runC12(c *core.Ctx) {
 			completed = false
 			break
 		}
-		s := world.Universe(world.UniverseOpts{GoDir: sc.cfg.God})
+		s := world.Universe(world.UniverseOpts{GoDir: sc.cfg.God, ReverseMembers: strings.Contains(sc.cfg.Name, "reversed-union")})
 		g := g0
 		cfg := sc.cfg.Cfg(s)
 		if cfg.Strat == world.FS {
